@@ -5,6 +5,8 @@ package state
 import (
 	"reflect"
 
+	memdb "github.com/hashicorp/go-memdb"
+
 	"github.com/hashicorp/consul/agent/structs"
 	"github.com/hashicorp/consul/api"
 	"github.com/hashicorp/consul/internal/verifrt"
@@ -35,28 +37,28 @@ func vTags(tag string) []string {
 	return nil
 }
 
-func vCatalogQuery(s *Store, q int) (uint64, any) {
+func vCatalogQuery(s *Store, ws memdb.WatchSet, q int) (uint64, any) {
 	switch q {
 	case 0:
-		i, r, _ := s.ServiceNodes(nil, "web", nil, "")
+		i, r, _ := s.ServiceNodes(ws, "web", nil, "")
 		return i, r
 	case 1:
-		i, r, _ := s.CheckServiceNodes(nil, "web", nil, "")
+		i, r, _ := s.CheckServiceNodes(ws, "web", nil, "")
 		return i, r
 	case 2:
-		i, r, _ := s.CheckServiceTagNodes(nil, "web", []string{"a"}, nil, "")
+		i, r, _ := s.CheckServiceTagNodes(ws, "web", []string{"a"}, nil, "")
 		return i, r
 	case 3:
-		i, r, _ := s.ServiceTagNodes(nil, "web", []string{"a"}, nil, "")
+		i, r, _ := s.ServiceTagNodes(ws, "web", []string{"a"}, nil, "")
 		return i, r
 	case 4:
-		i, r, _ := s.NodeServices(nil, "n1", nil, "")
+		i, r, _ := s.NodeServices(ws, "n1", nil, "")
 		return i, r
 	case 5:
-		i, r, _ := s.ServiceChecks(nil, "web", nil, "")
+		i, r, _ := s.ServiceChecks(ws, "web", nil, "")
 		return i, r
 	}
-	i, r, _ := s.NodeChecks(nil, "n1", nil, "")
+	i, r, _ := s.NodeChecks(ws, "n1", nil, "")
 	return i, r
 }
 
@@ -87,7 +89,8 @@ func VerifC06_Catalog(st any) {
 	}
 	q := verifrt.Choice("query", len(vCatalogQueryNames))
 	qn := vCatalogQueryNames[q]
-	i0, r0 := vCatalogQuery(s, q)
+	ws := memdb.NewWatchSet()
+	i0, r0 := vCatalogQuery(s, ws, q)
 
 	idx := verifrt.U64("idx")
 	verifrt.Assume(idx > next)
@@ -105,10 +108,11 @@ func VerifC06_Catalog(st any) {
 		must(s.DeleteNode(idx, "n1", nil, ""))
 	}
 	wn := []string{"reregister", "deregister", "register-other", "check-update", "delete-node"}[w]
-	i1, r1 := vCatalogQuery(s, q)
+	i1, r1 := vCatalogQuery(s, nil, q)
 	verifrt.Assert("C06."+qn+"."+wn+".index-never-decreases", i1 >= i0)
 	if !reflect.DeepEqual(r0, r1) {
 		verifrt.Assert("C06."+qn+"."+wn+".changed-result-has-greater-index", i1 > i0)
+		verifrt.Assert("C06."+qn+"."+wn+".changed-result-wakes-the-watcher", vFiredWS(ws))
 		verifrt.Reached("changed")
 	} else {
 		verifrt.Reached("unchanged")
